@@ -1,6 +1,11 @@
 """Class model of lang/parsing.py ParseContext (C13): the input is an SMT array of code points with a length,
 `pos` an integer, the symbol table two uninterpreted functions (in_table, ctype) over code points."""
 from __future__ import annotations
+
+def _new_private(model, name):
+    "a private helper the model has no contract for (e.g. extracted by a refactoring): interpreted from source"
+    from pyvc.interp import is_private_name
+    return is_private_name(name) and name not in getattr(model, 'NO_INLINE', ())
 import types
 import z3
 from pyvc import source
@@ -73,7 +78,7 @@ class CtxM(SymVal):
         for c in self.cls.__mro__:
             if name in c.__dict__:
                 v = c.__dict__[name]
-                if isinstance(v, types.FunctionType) and name in self.INLINE:
+                if isinstance(v, types.FunctionType) and (name in self.INLINE or _new_private(self, name)):
                     fi = source.of_function(v); self.inlined[fi.key] = fi
                     return BoundSource(fi, v, c, self)
                 raise Outside(f'ParseContext.{name} (no contract)')
